@@ -178,6 +178,8 @@ def _judge(args):
     fault_kinds = ["exc"]
     if kind == "fault" and ("C06" in want or "C04" in want):
         fault_kinds = ["exc", "typeerr"]
+        if len(case["log"]) % 2 == 0:
+            fault_kinds.append("baseexc")      # a failure that is no Exception (every other case)
         if "C06" in want:
             # exception classes the library raises or catches itself somewhere (ValueError, KeyError): the user's own
             # instance is not to be mistaken for them.  Aggregations get both, iterator tools alternate.
